@@ -121,7 +121,7 @@ def ops_inputs():
 def spirv_work(tools, exe_ir, exe_spv, workers):
     T = {}
     t0 = time.time()
-    zi = c15progs.zero_init_programs()
+    zi = c15progs.zero_init_programs() + c15progs.multi_entry_programs()
     progs = [("ops", OPS_SRC), ("wg", WG_SRC)] + [("probe%d" % i, src) for i, (_k, src) in enumerate(PROBES)] + [(n, s) for n, s, _m in zi]
     comp = spvcheck.compile_many(tools, progs)
     T["compile"] = round(time.time() - t0, 1)
@@ -136,7 +136,8 @@ def spirv_work(tools, exe_ir, exe_spv, workers):
         c = comp.get(name)
         if c is not None and "spv" in c and "ir" in c and not ("err" in c or "crash" in c or "panic" in c):
             runnable.append((name, ins, c))
-    res = c15spv.run_items(exe_ir, exe_spv, [(c, ins, None) for _n, ins, c in runnable], workers=workers)
+    ep_of = {n: m.get("ep") for n, _s, m in zi}
+    res = c15spv.run_items(exe_ir, exe_spv, [(c, ins, ep_of.get(n_)) for n_, ins, c in runnable], workers=workers)
     results = {name: (ins, r) for (name, ins, _c), r in zip(runnable, res)}
     T["run"] = round(time.time() - t0, 1)
     # index policies
